@@ -73,6 +73,7 @@ def programs(w):
                                         c["eargs"] = list(eargs)
                                         c["edefaults"] = [n for n in eargs if rng.random() < 0.35]
                                         c["eextra"] = rng.random() < 0.3
+                                        c["ekwonly"] = rng.randrange(len(eargs) + 1) if rng.random() < 0.4 else None
                                         if "OLD" in c["args"] and not n_snap:
                                             c["args"].remove("OLD")
                                     if dk == "snap":
@@ -92,6 +93,7 @@ def programs(w):
                                         inv = gen.make_inv(ids, rng, errs=[form], forms=(cform if cform in ("def", "lambda") else "def",))
                                         inv["self"] = True
                                         inv["eargs"] = list(eargs)
+                                        inv["ekwonly"] = 0 if rng.random() < 0.4 else None
                                         invs = [inv]
                                         m["decos"] = []
                                     classes.append(gen.chain_class(cname, [], members, invs, dbc=rng.random() < 0.5))
